@@ -36,15 +36,17 @@ pub struct Style {
     /// allow CR / CRLF line ends and literal whitespace variants
     pub line_ends: bool,
     pub cdata: bool,
+    /// empty `<![CDATA[]]>` sections after a non-empty part of a text run (they extend the span of the text node)
+    pub empty_cdata: bool,
     pub prolog: bool,
 }
 
 impl Style {
     pub fn plain() -> Self {
-        Style { lexical: false, fragment: false, line_ends: false, cdata: false, prolog: false }
+        Style { lexical: false, fragment: false, line_ends: false, cdata: false, empty_cdata: false, prolog: false }
     }
     pub fn rich() -> Self {
-        Style { lexical: true, fragment: false, line_ends: true, cdata: true, prolog: true }
+        Style { lexical: true, fragment: false, line_ends: true, cdata: true, empty_cdata: false, prolog: true }
     }
 }
 
@@ -203,6 +205,14 @@ impl<'s, 'a> R<'s, 'a> {
                 first_start.get_or_insert(st);
                 last_end = self.out.len();
                 i += len;
+            }
+            if self.st.empty_cdata && self.st.lexical && self.src.ratio(1, 6) {
+                // an empty CDATA section after a non-empty part: part of the run, its (empty)
+                // content is where the text node's span ends if nothing follows
+                self.feat("empty_cdata_in_text_run");
+                self.out.push_str("<![CDATA[");
+                last_end = self.out.len();
+                self.out.push_str("]]>");
             }
         }
         (first_start.unwrap_or(last_end), last_end)
